@@ -201,9 +201,9 @@ fn enumerate_block(alphabet: &[&str], block: u64, max_len: u32, out: &mut CaseOu
     }
 }
 
-const IDENT_SHAPES: [&str; 38] = [
+const IDENT_SHAPES: [&str; 43] = [
     "a", "EXa", "AUx", "AU_1", "A", "E", "E_", "EX_", "AFAF", "3x", "V1", "V_1", "1a", "12", "_", "__x", "true1", "True", "false", "0", "1", "in", "é", "٣", "x²", "EU1", "AGa",
-    "Vx", "33", "a_very_long_identifier_name_0123456789_abcdefghijklmnopqrstuvwxyz", "TRUE", "FALSE", "tRuE", "False_", "T", "\u{3b2}1", "AGO1", "V"];
+    "Vx", "33", "a_very_long_identifier_name_0123456789_abcdefghijklmnopqrstuvwxyz", "TRUE", "FALSE", "tRuE", "False_", "T", "\u{3b2}1", "AGO1", "V", "V\u{e9}", "3\u{e9}", "V\u{3bb}2", "E\u{e9}", "A\u{e9}X"];
 const OP_TOKENS: [&str; 22] =
     ["~", "&", "|", "^", "=>", "<=>", "EX", "AX", "EF", "AF", "EG", "AG", "EU", "AU", "EW", "AW", "(", ")", "(", ")", "~", "&"];
 const BLANKS: [&str; 6] = ["", " ", "  ", "\t", "\u{a0}", "\n"];
